@@ -372,6 +372,11 @@ class Engine:
         if type(a) is not type(b):
             if isinstance(a, (VInt, VBool, VNStr, VSeq, VTup)) and isinstance(b, (VInt, VBool, VNStr, VSeq, VTup)):
                 return z3.BoolVal(False)
+            if (isinstance(a, VRec) and isinstance(b, (VInt, VBool, VNStr, VSeq, VTup))) or \
+                    (isinstance(b, VRec) and isinstance(a, (VInt, VBool, VNStr, VSeq, VTup))):
+                # an object of a modelled class never equals a number / string / tuple (none of the modelled
+                # classes defines such an __eq__)
+                return z3.BoolVal(False)
         raise Unsupported(f"== on {a!r} / {b!r}")
 
     def fresh_like(self, v: V, base: str) -> V:
@@ -709,6 +714,8 @@ class Engine:
                 v = self.ev(e, st)
                 vals.append(v)
                 g = self.truthy(v)
+                if (is_and and is_false(g)) or (not is_and and is_true(g)):
+                    break                   # statically decided: Python does not evaluate the rest either
                 self.guards.append(g if is_and else z3.Not(g))
                 pushed += 1
         finally:
@@ -1265,8 +1272,17 @@ class Engine:
             return self.quantifier(node, st)
         if isinstance(node.func, ast.Name) and node.func.id == "implies" and len(node.args) == 2:
             a = self.truthy(self.ev(node.args[0], st))
+            if is_false(a):
+                return VBool(True)          # statically false antecedent: the consequent need not be well-typed
             b = self.truthy(self.ev(node.args[1], st))
             return VBool(z3.Implies(a, b))
+        if isinstance(node.func, ast.Name) and node.func.id in ("is_pybool", "is_record") and len(node.args) >= 1:
+            v = self.ev(node.args[0], st)
+            if isinstance(v, VOpt):
+                v = v.val
+            if node.func.id == "is_pybool":
+                return VBool(isinstance(v, VBool))
+            return VBool(isinstance(v, VRec) and (len(node.args) == 1 or v.cls == node.args[1].value))
         if isinstance(node.func, ast.Name) and node.func.id == "ite" and len(node.args) == 3:
             c = self.truthy(self.ev(node.args[0], st))
             return self.merge(c, self.ev(node.args[1], st), self.ev(node.args[2], st))
